@@ -79,6 +79,16 @@ def cells(tier):
                     'store_pool': 1})
         out.append({'kind': 'flush', 'backend': 'disk', 'msgs': 2,
                     'store_pool': 1})
+        # retries run out (the message must leave storage, not linger there
+        # unscheduled), smallest pools alone and together
+        out.append({'kind': 'retry', 'backend': 'dict', 'msgs': 1, 'fails': 2,
+                    'give_up': 2})
+        out.append({'kind': 'retry', 'backend': 'dict', 'msgs': 2, 'fails': 2,
+                    'give_up': 1, 'store_pool': 1})
+        out.append({'kind': 'retry', 'backend': 'disk', 'msgs': 2, 'fails': 1,
+                    'store_pool': 1, 'relay_pool': 1})
+        out.append({'kind': 'retry', 'backend': 'dict', 'msgs': 2, 'fails': 2,
+                    'give_up': 1, 'store_pool': 1, 'relay_pool': 1})
     else:
         for b in ('dict', 'disk', 'redis', 'cloud'):
             out.append({'kind': 'retry', 'backend': b, 'msgs': 2, 'fails': 1})
@@ -119,6 +129,7 @@ class World(object):
         qc.fresh_hub()
         qc.patch_env()
         self.store, self.sub = qc.make_storage(cell['backend'])
+        self.cell = cell
         self.due = {}           # id -> list of (written_at, due)
         self.tag_of = {}
         self.flushes = []       # instants at which flush() was called
@@ -138,6 +149,8 @@ class World(object):
         self.relay = qc.ScriptRelay(decide, duration=relay_dur)
 
         def backoff(envelope, attempts):
+            if cell.get('give_up') and attempts >= cell['give_up']:
+                return None         # retries exhausted
             return api.real('delay_%s_%d' % (envelope.client.get('tag'),
                                              attempts), 0)
         kw = {}
@@ -185,11 +198,15 @@ class World(object):
 
     def check_not_forgotten(self, info, ids):
         left = self.stored_ids()
+        give_up = self.cell.get('give_up')
         for tag, qid in ids.items():
             calls = [c for c in self.relay.calls if c['tag'] == tag]
-            api.prove(len(calls) == self.nfail(tag) + 1 and
+            want = self.nfail(tag) + 1
+            if give_up:
+                want = min(want, give_up)
+            api.prove(len(calls) == want and
                       qid not in left, 'message-forgotten', tag=tag,
-                      attempts=len(calls), want=self.nfail(tag) + 1,
+                      attempts=len(calls), want=want,
                       still_stored=qid in left, **info)
 
 
